@@ -103,3 +103,84 @@ func vh_C05_no_trace_after_close() {
 	vCover(op == 4, "close-during-presence-tick")
 	vAssert(tr.nclose <= 1, "transport-closed-at-most-once")
 }
+
+// C05 (keyed tracking): a shared-poll subscribe whose handler answers late, an
+// unsubscribe that parks on the wait gate of that in-flight subscribe, a track
+// for a key that commits while the subscribe finalizes (after the channel
+// context is installed, before the gate opens - the harness commits it from
+// inside the GetSharedPollChannelOptions call of the finalize step, the way
+// handleTrack leaves the state), the parked unsubscribe then tears the
+// subscription down, and the connection closes. Nothing of the connection may
+// remain: not in the keyed hub, not in its own tracking maps.
+func vh_C05_parked_unsubscribe_keyed() {
+	var hook func()
+	n := vNewNode(Config{SharedPoll: SharedPollConfig{GetSharedPollChannelOptions: func(ch string) (SharedPollChannelOptions, bool) {
+		if hook != nil {
+			h := hook
+			hook = nil
+			h()
+		}
+		return SharedPollChannelOptions{}, ch == c25Ch
+	}}})
+	var finish func()
+	n.OnConnect(func(c *Client) {
+		c.OnSubscribe(func(e SubscribeEvent, cb SubscribeCallback) {
+			finish = func() { cb(SubscribeReply{}, nil) } // answered later
+		})
+	})
+	tr := vNewTransport()
+	tr.proto = ProtocolTypeProtobuf
+	c := vNewClient(n, "u", tr)
+	vAssert(vConnect(c), "connects")
+	vSettle()
+	c.HandleCommand(&protocol.Command{Id: 5, Subscribe: &protocol.SubscribeRequest{Channel: c25Ch, Type: int32(SubscriptionTypeSharedPoll)}}, 0)
+	vSettle()
+	vAssert(finish != nil, "subscribe handler called, answer pending")
+
+	parked := vChoice("unsubscribe_while_subscribing", 2) == 1
+	done := false
+	if parked {
+		go func() {
+			c.Unsubscribe(c25Ch)
+			done = true
+		}()
+		vSettle()
+		vCover(!done, "unsubscribe-parked-on-the-wait-gate")
+	}
+	tracked := false
+	if vChoice("track_commits_during_finalize", 2) == 1 {
+		hook = func() {
+			c25Track(&c25Conn{c: c, tr: tr}, c25Key, &keyedKeyState{}, 0)
+			tracked = true
+		}
+	}
+	finish()
+	vSettle()
+	if !parked {
+		vAssert(c.IsSubscribed(c25Ch), "subscribed")
+		if vChoice("unsubscribe_before_close", 2) == 1 {
+			c.Unsubscribe(c25Ch)
+			vSettle()
+		}
+	}
+	_ = c.close(DisconnectForceNoReconnect)
+	vSettle()
+	vAdvance(6_000_000_000)
+	vSettle()
+
+	c.mu.RLock()
+	nch := len(c.channels)
+	ntracked := 0
+	if c.keyed != nil {
+		ntracked = len(c.keyed.trackedKeys[c25Ch])
+	}
+	c.mu.RUnlock()
+	if hub := n.keyedManager.getHub(c25Ch); hub != nil {
+		vAssert(!hub.hasSubscriber(c25Key, c), "closed-connection-not-in-the-keyed-hub")
+		vAssert(hub.subscriberCount(c25Key) == 0, "no-subscriber-for-the-key")
+	}
+	vAssert(nch == 0, "no-channel-left-on-connection")
+	vAssert(ntracked == 0, "no-tracked-key-left-on-connection")
+	vAssert(n.hub.NumClients() == 0, "no-clients")
+	vCover(parked && tracked, "track-committed-while-unsubscribe-waited")
+}
